@@ -265,6 +265,8 @@ func (option *Option) Set(value *string) error {
 
 			if len(option.Choices) > 1 {
 				allowed += " or " + option.Choices[len(option.Choices)-1]
+			} else {
+				allowed = option.Choices[0]
 			}
 
 			return newErrorf(ErrInvalidChoice,
